@@ -104,6 +104,12 @@ def directed():
     add("poll-random", [SUB1, EL(2), PEERS(6), EL(2), PEERS(2), EL(2)], router="randomsub")
     add("poll-gossip", [SUB1, EL(1), PEERS(2), EL(3), PEERS(0), EL(2), CAN1, EL(1), CLOSE1, EL(2)])
     add("poll-gossip-floodpeers", [JOIN1, EL(1), PEERS(2), EL(2), PEERS(1), EL(2), SUB1, EL(2)], pproto="flood")
+    # the second clauses of the relations: a mesh beyond Dhi (GRAFTs from six peers), six randomsub peers, mixed protocols
+    add("enough-dhi", [SUB1, PEERS(6), EL(1)] + [A("graft", p="p%d" % i, t="t1") for i in (1, 2, 3, 4, 5, 6)] + [EL(2)])
+    add("enough-random-mixed", [SUB1, PEERS(2), EL(1), PEERS(4), EL(1), PEERS(6), EL(2), PEERS(3), EL(1)], router="randomsub", pproto="mixed")
+    add("enough-random-flood", [JOIN1, PEERS(5), EL(1), PEERS(6), EL(2)], router="randomsub", pproto="flood")
+    add("enough-gossip-mixed", [SUB1, PEERS(1), EL(1), PEERS(2), EL(2), PEERS(4), EL(2), PEERS(0), EL(1)], pproto="mixed")
+    add("enough-flood-seven", [SUB1, PEERS(4), EL(1), PEERS(5), EL(1), PEERS(6), EL(1)], router="floodsub", npeers=7)
     add("poll-grid", [SUB1, EL(5), REL1, EL(3)], poll0=1300, pollIv=2000, router="floodsub")
     # searches: held until the 10 s context ends, failing, released; de-duplication against Subscribe / Relay / Bootstrap
     add("find-hold", [SVCF("hold"), SUB1, REL1, EL(2), PUB("a1", n=1), EL(9), EL(3), A("release", what="find"), EL(2), SVCF("empty"), EL(2), A("cancelpub", m="a1")])
@@ -218,6 +224,8 @@ def to_scenario(evs, k, src):
         cfg["poll0"], cfg["pollIv"] = 1300, 2000
     if cfg["router"] == "gossipsub" and k % 3 == 0:
         cfg["pproto"] = "flood"
+    if cfg["router"] != "floodsub" and k % 4 == 1:
+        cfg["pproto"] = "mixed"
     if k % 11 == 6:
         cfg["nodisc"] = True
     acts = []
@@ -368,7 +376,7 @@ def ev(e):
     if isinstance(o["err"], bool):
         o["err"] = "x" if o["err"] else ""
     en = e.get("en") or {}
-    o["en"] = {t: list(en.get(t) or [False] * 5) for t in TOPICS}
+    o["en"] = {t: list(en.get(t) or [False] * 8) for t in TOPICS}
     return o
 
 
@@ -412,9 +420,10 @@ OBLIGATIONS = ["adv_started_by_subscribe", "adv_started_by_relay", "adv_cancelle
                "poll_skipped_after_close", "poll_joined_only_topic", "poll_other_grid", "find_held_to_timeout", "find_released", "find_failed",
                "find_two_topics_at_once",
                "dial_first", "dial_suppressed_in_backoff", "dial_after_backoff", "self_returned", "custom_connector", "found_peer_announced",
-               "pub_ready_at_call", "pub_ready_later", "pub_deadline_error", "pub_cancel_error", "pub_pending_at_shutdown", "pub_nodisc_ready_later",
+               "pub_ready_at_call", "pub_ready_later", "pub_deadline_before_ready", "pub_cancelled_before_ready", "pub_pending_at_shutdown", "pub_nodisc_ready_later",
                "pub_nodisc_deadline", "pub_dedup_cadence", "pub_search_cadence",
                "enough_flood", "enough_random", "enough_gossip_mesh", "enough_gossip_floodpeers", "not_enough_sampled", "suggested_size_differs",
+               "gossip_dhi_clause_decisive", "random_rs_clause_decisive", "random_flood_peers_decisive", "gossip_mixed_protocols", "subscribe_search_already_in_flight",
                "nodisc_scenario", "shutdown_cancels_advertiser", "shutdown_ends_search", "router_gossipsub", "router_floodsub", "router_randomsub"]
 
 
@@ -447,6 +456,8 @@ def obligations(scn, rows, ob):
                 stim_seen = True
                 t0 = e["t"]
                 was = subs.get(t, 0) + relays.get(t, 0) > 0
+                if kind in ("subscribe", "relay") and disc and any(tp == t for tp, s, dl in inflight.values()):
+                    hit("subscribe_search_already_in_flight")
                 if kind == "subscribe":
                     subs[t] = subs.get(t, 0) + 1
                     joined.add(t)
@@ -525,6 +536,8 @@ def obligations(scn, rows, ob):
                         hit("suggested_size_differs")
                 if e["kind"] == "pre" and on_grid(e["t"] + 100):
                     ln.setdefault("_pre", {})[e["t"] + 100] = (en, set(joined))
+            elif k == "find" and False:
+                pass
             elif k == "find":
                 tp = e["ns"].split(":", 1)[-1]
                 if any(s == e["t"] for s in last_find_start.values()) and last_find_start.get(tp) != e["t"]:
@@ -583,14 +596,37 @@ def obligations(scn, rows, ob):
                         hit("pub_ready_at_call")
                     else:
                         hit("pub_ready_later" if disc else "pub_nodisc_ready_later")
-                if e["err"] == "deadline":
-                    hit("pub_deadline_error" if disc else "pub_nodisc_deadline")
-                if e["err"] == "canceled" and not shut:
-                    hit("pub_cancel_error")
+                # (with the finding X06-F1 present the outcome of a publish whose context ended is a coin flip: the obligation is
+                # that the situation arose, whatever the node did)
+                unready = not (p["evals"] and p["evals"][-1][1])
+                if unready and p["to"] and e["t"] == p["start"] + p["to"]:
+                    hit("pub_deadline_before_ready" if disc else "pub_nodisc_deadline")
+                if unready and stim_seen and kind == "cancelpub" and a.get("m") == e["m"] and e["t"] == t0:
+                    hit("pub_cancelled_before_ready")
             if k == "find":
                 for p in pubs.values():
                     if p.get("wait") == "next" and p["t"] == e["ns"].split(":", 1)[-1] and p["evals"] and p["evals"][-1][0] == e["t"]:
                         p["wait"] = e["id"]
+        # which clause of the relation decided (router snapshot of the quiescent point against the end sample)
+        st = ln["st"]
+        if en is not None and not st.get("dead"):
+            protos = dict(st.get("gsPeers") or {})
+            protos.update(st.get("rsPeers") or {})
+            for tp in TOPICS:
+                ps = (st.get("topics") or {}).get(tp) or []
+                me = len((st.get("mesh") or {}).get(tp) or [])
+                fs = sum(1 for p in ps if not protos.get(p, "").startswith("/meshsub/"))
+                fl = sum(1 for p in ps if protos.get(p) == "/floodsub/1.0.0")
+                rs = sum(1 for p in ps if protos.get(p) == "/randomsub/1.0.0")
+                for n in range(1, 8):
+                    if cfg["router"] == "gossipsub" and en[tp][n] and fs + me < n and me >= cfg["Dhi"]:
+                        hit("gossip_dhi_clause_decisive")
+                    if cfg["router"] == "randomsub" and en[tp][n] and fl + rs < n and rs >= cfg["RandomSubD"]:
+                        hit("random_rs_clause_decisive")
+                    if cfg["router"] == "randomsub" and en[tp][n] and fl > 0 and rs < n <= fl + rs:
+                        hit("random_flood_peers_decisive")
+                if cfg["router"] == "gossipsub" and 0 < fs < len(ps):
+                    hit("gossip_mixed_protocols")
         # polls of this line that found a joined topic with enough peers / a closed topic
         for tau, (enp, jn) in (ln.get("_pre") or {}).items():
             for tp in TOPICS:
